@@ -1,6 +1,6 @@
 ------------------------------- MODULE MC_C23 -------------------------------
 (* Cases for C23: pairs of polynomials over GF(p), p in {2,3,5,7}.          *)
-EXTENDS Integers, Sequences, FiniteSets, TLC, Json, IOUtils, SequencesExt, Randomization
+EXTENDS Integers, Sequences, FiniteSets, TLC, Json, IOUtils, SequencesExt, Randomization, GF
 Thorough == "TIER" \in DOMAIN IOEnv /\ IOEnv.TIER = "thorough"
 Lists(p, n) == UNION {[1..k -> 0..(p - 1)] : k \in 0..n}
 Case(p, a, b, k) == [op |-> "gf", p |-> p, a |-> a, b |-> b, k |-> k]
@@ -13,8 +13,18 @@ Cases == {Case(2, pr[1], pr[2], 3) : pr \in Small(2, 4)}
          \cup {Case(7, pr[1], pr[2], 2) : pr \in Small(7, 2)}
          \cup {Case(7, a, b, 3) : a \in RandomSubset(IF Thorough THEN 60 ELSE 20, Lists(7, 4)), b \in RandomSubset(IF Thorough THEN 40 ELSE 15, Lists(7, 3))}
          \cup {Case(5, <<-1, 7, 12>>, <<6, -4>>, 2), Case(3, <<3, 3>>, <<1, 1>>, 2), Case(2, <<1, 1, 1, 1, 1, 1, 1>>, <<1, 0, 1>>, 2)}
-ASSUME PrintT(<<"cases", Cardinality(Cases)>>)
-ASSUME ndJsonSerialize(IOEnv.OUT, SetToSeq(Cases))
+\* factorisation family: products of two or three monic irreducibles (equal-degree and mixed-degree, repeated factors)
+Irr(d, p) == {f \in Monics(d, p) : Irreducible(f, p)}
+Sub(S, n) == IF Cardinality(S) <= n THEN S ELSE RandomSubset(n, S)
+NF == IF Thorough THEN 400 ELSE 40
+Prod2(p, d1, d2) == Sub({GMul(f, g, p) : f \in Irr(d1, p), g \in Irr(d2, p)}, NF)
+FacCases == UNION {{Case(p, a, <<1, 1>>, 2) : a \in Prod2(p, 2, 2) \cup Prod2(p, 1, 3) \cup Prod2(p, 2, 3) \cup Prod2(p, 3, 3) \cup Prod2(p, 1, 1)} : p \in {3, 5, 7}}
+            \cup {Case(2, a, <<1, 1>>, 2) : a \in Prod2(2, 5, 5) \cup Prod2(2, 4, 5) \cup Prod2(2, 3, 4) \cup Prod2(2, 4, 4) \cup Prod2(2, 2, 5) \cup Prod2(2, 6, 6)}
+            \cup UNION {{Case(p, GMul(GMul(f, f, p), g, p), <<1, 1>>, 2) : f \in Sub(Irr(2, p), 4), g \in Sub(Irr(2, p), 4)} : p \in {3, 5}}
+            \cup {Case(3, GMul(GMul(f, g, 3), h, 3), <<1, 1>>, 2) : f \in Irr(2, 3), g \in Irr(2, 3), h \in Sub(Irr(3, 3), 4)}
+AllCases == Cases \cup FacCases
+ASSUME PrintT(<<"cases", Cardinality(Cases), Cardinality(FacCases)>>)
+ASSUME ndJsonSerialize(IOEnv.OUT, SetToSeq(AllCases))
 VARIABLE dummy
 Init == dummy = 0
 Next == UNCHANGED dummy
